@@ -407,10 +407,12 @@ func (s *Server) safeHandleNotification(method string, params json.RawMessage) {
 func (s *Server) handleMalformedRequest(msg json.RawMessage, parseErr error) {
 	// Try to extract just the ID from the malformed request
 	var partial struct {
-		ID interface{} `json:"id"`
+		ID json.RawMessage `json:"id"`
 	}
-	if err := json.Unmarshal(msg, &partial); err == nil && partial.ID != nil {
-		s.sendError(partial.ID, ParseError, fmt.Sprintf("parse error: %v", parseErr))
+	if err := json.Unmarshal(msg, &partial); err == nil {
+		if id := decodeID(partial.ID); id != nil {
+			s.sendError(id, ParseError, fmt.Sprintf("parse error: %v", parseErr))
+		}
 	}
 }
 
